@@ -342,6 +342,8 @@ class Explorer:
             self.samples.append(obj)
 
     # ------------------------------------------------------------------- drive
+    on_path_start = None
+
     def run(self, fn):
         global _CUR
         self.pending = [[]]
@@ -362,6 +364,8 @@ class Explorer:
                 self.model = None
                 self._fresh = itertools.count()
                 self.solver.push()
+                if self.on_path_start is not None:
+                    self.on_path_start()
                 _CUR = self
                 snap = (self.obligations, self.discharged, self.symbolic_obligations, self.reached, dict(self.outcomes))
                 try:
